@@ -86,6 +86,14 @@ def run_case(ctx, S, a, b, m, tag, reuse=None):
             s.nice(m) if m is not None else s.nice()
             ticks = list(held)
             ctx.path("ticks-held-across-nice")
+        elif reuse == "formatter-held-across-other-formats":
+            # the formatter is taken first and used only after other scales (coarser and finer) were asked for theirs
+            ticks = list(s.ticks(m)) if m is not None else list(s.ticks())
+            fmt = s.tickFormat(m) if m is not None else s.tickFormat()
+            for dom, mm in (([0.0, 1000.0], 10), ([0.0, 1e-4], 7), ([-5e6, 5e6], 3)):
+                S.LinearScale().domain(dom).tickFormat(mm)(dom[1])
+            list(s.ticks(m)) if m is not None else list(s.ticks())
+            ctx.path("formatter-held-across-other-formats")
         else:
             ticks = list(s.ticks(m)) if m is not None else list(s.ticks())
             fmt = s.tickFormat(m) if m is not None else s.tickFormat()
@@ -125,7 +133,7 @@ def worker(ctx, shard):
     rng = ctx.rng("ticks%d" % shard["sub"])
     for _ in range(shard["n"]):
         a, b, m, tag = lin.gen_domain(rng)
-        run_case(ctx, S, a, b, m, tag, reuse=rng.choice([None, None, None, "same-object", "copy", "ticks-then-nice", "ticks-then-nice-other-count", "copy-sibling-asked-first", "format-for-other-count-first", "ticks-held-across-nice", "float-count"]))
+        run_case(ctx, S, a, b, m, tag, reuse=rng.choice([None, None, None, "same-object", "copy", "ticks-then-nice", "ticks-then-nice-other-count", "copy-sibling-asked-first", "format-for-other-count-first", "ticks-held-across-nice", "float-count", "formatter-held-across-other-formats"]))
     for k, v in cnt.items():
         ctx.event(k, v)
     p.uninstall()
